@@ -40,7 +40,9 @@ FRACTIONS = ['1.0', '1', '0.5', '.5', '2', '0.25', '1e-3', '1E-3', '3.5e-2',
              '0.0786', '6.02e-1', '1.234567', '10', '0.7000', '2.50', '1.5-2',
              '4.d-1', '1.0e+0']
 SUFFIXES = ['', '', '.70c', '.80c', '.31c', '.00c', '.50d']
-KEYWORDS = ['nlib=70c', 'gas=1', 'estep=10', 'plib=04p', 'cond=1', 'hlib=24h']
+KEYWORDS = ['nlib=70c', 'gas=1', 'estep=10', 'plib=04p', 'cond=1', 'hlib=24h',
+            # the equals sign is a blank to MCNP
+            'nlib = 70c', 'gas =1', 'estep= 10']
 
 
 @st.composite
